@@ -1,3 +1,202 @@
-(* C12 — placeholder while the proofs are being written. *)
-From GT Require Import GEnumModel GEnumProofs.
-Theorem C12_placeholder : True. Proof. exact I. Qed.
+(* C12 — genum: trait accessors and parse-by-trait agree with the declaration.
+   Property theorems only; every proof is `exact <lemma>`.
+
+   Levels.  (D) definition level: statements over the definition d — accessor_spec d col e is the
+   cell written on the primary definition line of value e in column col (GEnumTraitProofs).
+   (T) table level: statements over the rows the generator hands to the template; a row = (owning
+   constant, cell).  (D) is (T) plus the characterisation of the rows (extractTraitDescs, per-line
+   instances, processDuplicates).  Decoding is stated on library views (see C05).                *)
+From Coq Require Import String ZArith List Bool Permutation.
+From GT Require Import Base.GEnumStr.
+From GT Require Import GEnumModel GEnumProofs GEnumCodecTraits GEnumOrig GEnumTraitProofs.
+Import ListNotations.
+Local Open Scope string_scope.
+Local Open Scope list_scope.
+Local Open Scope Z_scope.
+
+(* ---------------------------------------------------------------- accessors *)
+(* (D) every declared trait has an accessor, and nothing else has *)
+Theorem C12_accessor_names : forall d o t, wf_defn d -> gen d o = Built t -> o_notraits o = false ->
+  Permutation (map col_name (t_cols t)) (column_names d).
+Proof. exact accessor_names. Qed.
+
+(* (D) each accessor returns, for every value, the constant written on that value's primary
+   definition line, and the zero value of the trait type otherwise *)
+Theorem C12_accessor : forall d o t, wf_defn d -> traits_wf d -> gen d o = Built t -> o_notraits o = false ->
+  forall c, In c (t_cols t) -> forall e, sem_accessor c e = accessor_spec d (col_name c) e.
+Proof. exact accessor_correct. Qed.
+
+(* (T) the same on the generator's rows: one row per value (no duplicate `case`) *)
+Theorem C12_accessor_row : forall d o t, gen d o = Built t ->
+  forall c r, In c (t_cols t) -> In r (col_rows c) ->
+  sem_accessor c (g_z (r_owner r)) = dval (cl_val (r_cell r)).
+Proof. exact accessor_row. Qed.
+Theorem C12_accessor_zero : forall c e, (forall r, In r (col_rows c) -> g_z (r_owner r) <> e) ->
+  sem_accessor c e = zero_payload (ti_bkind (col_info c)).
+Proof. exact accessor_zero. Qed.
+
+(* ---------------------------------------------------------------- parse by trait *)
+(* (D) Parse<Type> of the trait value on a primary definition line returns the owning value *)
+Theorem C12_parse_trait : forall d o t, wf_defn d -> traits_wf d -> gen d o = Built t -> o_notraits o = false ->
+  forall col e cl, In col (o_parsable o) -> primary_cell d col e = Some cl ->
+  sem_parse t (cl_val cl) = Some e.
+Proof. exact parse_trait_correct. Qed.
+(* (T) *)
+Theorem C12_parse_trait_row : forall d o t, wf_defn d -> gen d o = Built t ->
+  forall c r, In c (t_cols t) -> col_parsable c = true -> In r (col_rows c) ->
+  sem_parse t (cl_val (r_cell r)) = Some (g_z (r_owner r)).
+Proof. exact parse_trait_row. Qed.
+
+(* ---------------------------------------------------------------- decoding of trait values *)
+(* a decoder returns the owning value of a parsable trait constant as soon as the constant is
+   among the readings it tries and the document is unambiguous (no reading parses to another value) *)
+Theorem C12_decode_json : forall d o t, wf_defn d -> gen d o = Built t ->
+  forall c r jv, In c (t_cols t) -> col_parsable c = true -> In r (col_rows c) ->
+  In (cl_val (r_cell r)) (json_attempts t jv) -> unambiguous t (json_attempts t jv) (g_z (r_owner r)) ->
+  decode_json t jv = Some (g_z (r_owner r)).
+Proof. exact decode_trait_json. Qed.
+Theorem C12_decode_yaml : forall d o t, wf_defn d -> gen d o = Built t ->
+  forall c r yv, In c (t_cols t) -> col_parsable c = true -> In r (col_rows c) ->
+  In (cl_val (r_cell r)) (yaml_attempts_gen true t yv) -> unambiguous t (yaml_attempts_gen true t yv) (g_z (r_owner r)) ->
+  decode_yaml t yv = Some (g_z (r_owner r)).
+Proof. exact decode_trait_yaml. Qed.
+Theorem C12_decode_text : forall d o t, wf_defn d -> gen d o = Built t ->
+  forall c r tv, In c (t_cols t) -> col_parsable c = true -> In r (col_rows c) ->
+  In (cl_val (r_cell r)) (text_attempts t tv) -> unambiguous t (text_attempts t tv) (g_z (r_owner r)) ->
+  decode_text t tv = Some (g_z (r_owner r)).
+Proof. exact decode_trait_text. Qed.
+
+(* and the readings ARE tried, per family of the trait type: integer kinds (int64 / uint64
+   readings, converted to the trait type), string kinds, self-unmarshaling types *)
+Theorem C12_decode_json_int : forall d o t, wf_defn d -> gen d o = Built t ->
+  forall c r, In c (t_cols t) -> col_parsable c = true -> In r (col_rows c) ->
+  forall jv z, col_kind c = KInt64 -> ti_json_own (col_info c) = false ->
+  cl_val (r_cell r) = typed_int c z -> jv_i64 jv = Some z ->
+  unambiguous t (json_attempts t jv) (g_z (r_owner r)) -> decode_json t jv = Some (g_z (r_owner r)).
+Proof. exact json_int. Qed.
+Theorem C12_decode_json_uint : forall d o t, wf_defn d -> gen d o = Built t ->
+  forall c r, In c (t_cols t) -> col_parsable c = true -> In r (col_rows c) ->
+  forall jv z, col_kind c = KUint64 -> ti_json_own (col_info c) = false ->
+  cl_val (r_cell r) = typed_int c z -> jv_u64 jv = Some z ->
+  unambiguous t (json_attempts t jv) (g_z (r_owner r)) -> decode_json t jv = Some (g_z (r_owner r)).
+Proof. exact json_uint. Qed.
+Theorem C12_decode_json_string : forall d o t, wf_defn d -> gen d o = Built t ->
+  forall c r, In c (t_cols t) -> col_parsable c = true -> In r (col_rows c) ->
+  forall jv s, col_kind c = KString -> ti_json_own (col_info c) = false ->
+  cl_val (r_cell r) = typed c (PStr s) -> jv_string jv = Some s ->
+  unambiguous t (json_attempts t jv) (g_z (r_owner r)) -> decode_json t jv = Some (g_z (r_owner r)).
+Proof. exact json_typed_string. Qed.
+Theorem C12_decode_json_plain_string : forall d o t, wf_defn d -> gen d o = Built t ->
+  forall c r, In c (t_cols t) -> col_parsable c = true -> In r (col_rows c) ->
+  forall jv s, cl_val (r_cell r) = DStr s -> jv_string jv = Some s ->
+  unambiguous t (json_attempts t jv) (g_z (r_owner r)) -> decode_json t jv = Some (g_z (r_owner r)).
+Proof. exact json_plain_string. Qed.
+Theorem C12_decode_json_native : forall d o t, wf_defn d -> gen d o = Built t ->
+  forall c r, In c (t_cols t) -> col_parsable c = true -> In r (col_rows c) ->
+  forall jv p, ti_json_own (col_info c) = true ->
+  cl_val (r_cell r) = typed c p -> lookup (col_type c) (jv_native jv) = Some (Some p) ->
+  unambiguous t (json_attempts t jv) (g_z (r_owner r)) -> decode_json t jv = Some (g_z (r_owner r)).
+Proof. exact json_native. Qed.
+Theorem C12_decode_yaml_int : forall d o t, wf_defn d -> gen d o = Built t ->
+  forall c r, In c (t_cols t) -> col_parsable c = true -> In r (col_rows c) ->
+  forall yv z, col_kind c = KInt64 -> ti_yaml_own (col_info c) = false ->
+  cl_val (r_cell r) = typed_int c z -> yv_i64 yv = Some z ->
+  unambiguous t (yaml_attempts_gen true t yv) (g_z (r_owner r)) -> decode_yaml t yv = Some (g_z (r_owner r)).
+Proof. exact yaml_int. Qed.
+Theorem C12_decode_yaml_uint : forall d o t, wf_defn d -> gen d o = Built t ->
+  forall c r, In c (t_cols t) -> col_parsable c = true -> In r (col_rows c) ->
+  forall yv z, col_kind c = KUint64 -> ti_yaml_own (col_info c) = false ->
+  cl_val (r_cell r) = typed_int c z -> yv_u64 yv = Some z ->
+  unambiguous t (yaml_attempts_gen true t yv) (g_z (r_owner r)) -> decode_yaml t yv = Some (g_z (r_owner r)).
+Proof. exact yaml_uint. Qed.
+Theorem C12_decode_yaml_string : forall d o t, wf_defn d -> gen d o = Built t ->
+  forall c r, In c (t_cols t) -> col_parsable c = true -> In r (col_rows c) ->
+  forall yv s, col_kind c = KString -> ti_yaml_own (col_info c) = false ->
+  cl_val (r_cell r) = typed c (PStr s) -> yv_value yv = s ->
+  unambiguous t (yaml_attempts_gen true t yv) (g_z (r_owner r)) -> decode_yaml t yv = Some (g_z (r_owner r)).
+Proof. exact yaml_typed_string. Qed.
+Theorem C12_decode_yaml_plain_string : forall d o t, wf_defn d -> gen d o = Built t ->
+  forall c r, In c (t_cols t) -> col_parsable c = true -> In r (col_rows c) ->
+  forall yv s, cl_val (r_cell r) = DStr s -> yv_value yv = s ->
+  unambiguous t (yaml_attempts_gen true t yv) (g_z (r_owner r)) -> decode_yaml t yv = Some (g_z (r_owner r)).
+Proof. exact yaml_plain_string. Qed.
+Theorem C12_decode_yaml_native : forall d o t, wf_defn d -> gen d o = Built t ->
+  forall c r, In c (t_cols t) -> col_parsable c = true -> In r (col_rows c) ->
+  forall yv p, ti_yaml_own (col_info c) = true ->
+  cl_val (r_cell r) = typed c p -> lookup (col_type c) (yv_native yv) = Some (Some p) ->
+  unambiguous t (yaml_attempts_gen true t yv) (g_z (r_owner r)) -> decode_yaml t yv = Some (g_z (r_owner r)).
+Proof. exact yaml_native. Qed.
+Theorem C12_decode_text_string : forall d o t, wf_defn d -> gen d o = Built t ->
+  forall c r, In c (t_cols t) -> col_parsable c = true -> In r (col_rows c) ->
+  forall tv s, col_kind c = KString -> ti_text_own (col_info c) = false ->
+  cl_val (r_cell r) = typed c (PStr s) -> tv_text tv = s ->
+  unambiguous t (text_attempts t tv) (g_z (r_owner r)) -> decode_text t tv = Some (g_z (r_owner r)).
+Proof. exact text_typed_string. Qed.
+Theorem C12_decode_text_plain_string : forall d o t, wf_defn d -> gen d o = Built t ->
+  forall c r, In c (t_cols t) -> col_parsable c = true -> In r (col_rows c) ->
+  forall tv s, cl_val (r_cell r) = DStr s -> tv_text tv = s ->
+  unambiguous t (text_attempts t tv) (g_z (r_owner r)) -> decode_text t tv = Some (g_z (r_owner r)).
+Proof. exact text_plain_string. Qed.
+
+(* ---------------------------------------------------------------- the full statement is false *)
+(* "every JSON scalar holding a parsable trait value decodes to the owner" fails for bool traits:
+   the emitted decoders have no bool family (open finding C12-parsable-bool-trait-no-codec-family);
+   the theorems above are the statement restricted to the integer, string and self-unmarshaling kinds *)
+Theorem C12_refuted : ~ C12_full_statement.
+Proof. exact full_statement_refuted. Qed.
+
+(* ---------------------------------------------------------------- the pinned generator (records) *)
+Theorem C12_duplicate_case_orig_refuted :
+  is_builderr (gen_orig w_dup_cells (opts_with [])) = true /\ is_built (gen w_dup_cells (opts_with [])) = true.
+Proof. exact dup_cells_orig. Qed.
+Theorem C12_row_index_orig_refuted :
+  is_generr (gen_orig w_index (opts_with ["Legs"])) = true /\ is_built (gen w_index (opts_with ["Legs"])) = true.
+Proof. exact index_orig. Qed.
+Theorem C12_row_index2_orig_refuted :
+  is_generr (gen_orig w_index2 (opts_with ["Tag"])) = true /\ is_built (gen w_index2 (opts_with ["Tag"])) = true.
+Proof. exact index2_orig. Qed.
+Theorem C12_native_variable_orig_refuted :
+  is_builderr (gen_orig w_v0 (opts_with ["First"; "Second"])) = true
+  /\ is_built (gen w_v0 (opts_with ["First"; "Second"])) = true.
+Proof. exact v0_orig. Qed.
+Theorem C12_untyped_rune_orig_refuted :
+  extract_underlying_orig BUntypedRune = KUnknown /\ extract_underlying BUntypedRune = KInt64.
+Proof. exact rune_orig. Qed.
+
+(* non-vacuity *)
+Example C12_example_wf : wf_defn w_dup_cells /\ traits_wf w_dup_cells.
+Proof.
+  split.
+  - split; [unfold ty_ok; simpl; split; discriminate|]. split.
+    + repeat constructor.
+    + repeat constructor; simpl; intuition discriminate.
+  - unfold traits_wf. vm_compute. repeat constructor. simpl. intuition.
+Qed.
+
+Print Assumptions C12_accessor_names.
+Print Assumptions C12_accessor.
+Print Assumptions C12_accessor_row.
+Print Assumptions C12_accessor_zero.
+Print Assumptions C12_parse_trait.
+Print Assumptions C12_parse_trait_row.
+Print Assumptions C12_decode_json.
+Print Assumptions C12_decode_yaml.
+Print Assumptions C12_decode_text.
+Print Assumptions C12_decode_json_int.
+Print Assumptions C12_decode_json_uint.
+Print Assumptions C12_decode_json_string.
+Print Assumptions C12_decode_json_plain_string.
+Print Assumptions C12_decode_json_native.
+Print Assumptions C12_decode_yaml_int.
+Print Assumptions C12_decode_yaml_uint.
+Print Assumptions C12_decode_yaml_string.
+Print Assumptions C12_decode_yaml_plain_string.
+Print Assumptions C12_decode_yaml_native.
+Print Assumptions C12_decode_text_string.
+Print Assumptions C12_decode_text_plain_string.
+Print Assumptions C12_refuted.
+Print Assumptions C12_duplicate_case_orig_refuted.
+Print Assumptions C12_row_index_orig_refuted.
+Print Assumptions C12_row_index2_orig_refuted.
+Print Assumptions C12_native_variable_orig_refuted.
+Print Assumptions C12_untyped_rune_orig_refuted.
